@@ -659,6 +659,10 @@ def run(ctx):
         desc = [expr_str(e0), expr_str(e1)]
     else:
         desc = "?"
+        # `word.to_le_bytes()` is the pair [bits 7:0, bits 15:8] by definition (to_be_bytes is the other order and is not accepted)
+        le_ = [t_ for b_ in sorted(reg) for t_ in [tr.term(b_)] if t_["k"] == "call" and (callee_of(t_) or "").endswith("<impl u16>::to_le_bytes")]
+        if len(le_) == 1 and not arrs and is_mem_word(kit.strip_refs(tr.expr(le_[0]["args"][0], 10))):
+            ok, desc = True, ["to_le_bytes(%s)" % expr_str(tr.expr(le_[0]["args"][0], 10), 40)]
     ctx.oblig(ok, {"PUTSP": desc}, "[bits 7:0, bits 15:8]")
     if not ok:
         ctx.violation("putsp-order", sp_file_line(tr.term(tg[0x24]).get("sp")), "PUTSP prints %s per word; the ISA packs the first character in bits 7:0 and the second in bits 15:8" % desc)
